@@ -26,6 +26,13 @@ with ThreadPoolExecutor(16) as ex:
     res = list(ex.map(one, jobs))
 bad = 0
 for rid, pid, rc, out in res:
+    uf = os.path.join(VERIF, 'refactors', rid, 'undecided.txt')
+    und = {ln.split()[0] for ln in open(uf) if ln.strip() and not ln.startswith('#')} if os.path.exists(uf) else set()
+    if pid in und:
+        if rc != 2:
+            bad += 1
+            print('--- %s %s rc=%d (expected 2: listed in undecided.txt)\n%s' % (rid, pid, rc, out))
+        continue
     if rc:
         bad += 1
         print('--- %s %s rc=%d\n%s' % (rid, pid, rc, out))
